@@ -65,7 +65,7 @@ impl Config {
             .collect();
         }
         if c.drop_attrs.is_empty() {
-            c.drop_attrs = ["derive", "inline", "allow", "cfg", "must_use", "warn", "derivative"]
+            c.drop_attrs = ["derive", "inline", "allow", "cfg", "must_use", "warn", "derivative", "macro_export"]
                 .iter()
                 .map(|s| s.to_string())
                 .collect();
@@ -101,6 +101,8 @@ pub struct Rewriter<'a> {
     /// R-break: source range of a `loop` in tail position of the extracted body
     pub tail_loop: Option<(usize, usize)>,
     loop_depth_in_tail: Option<usize>,
+    /// kinds the unit file forces for a name wherever it is (re)bound
+    pub forced: HashMap<String, Kind>,
 }
 
 fn binop_trait(op: &BinOp) -> Option<(&'static str, &'static str, bool)> {
@@ -157,6 +159,7 @@ impl<'a> Rewriter<'a> {
             impl_self_ref: false,
             tail_loop: None,
             loop_depth_in_tail: None,
+            forced: HashMap::new(),
         }
     }
 
@@ -169,6 +172,9 @@ impl<'a> Rewriter<'a> {
     }
 
     fn lookup(&self, name: &str) -> Option<Kind> {
+        if let Some(k) = self.forced.get(name) {
+            return Some(*k);
+        }
         for s in self.scopes.iter().rev() {
             if let Some(k) = s.get(name) {
                 return Some(*k);
@@ -455,6 +461,17 @@ impl<'a, 'ast> Visit<'ast> for Rewriter<'a> {
         self.scopes.pop();
     }
 
+    fn visit_macro(&mut self, m: &'ast Macro) {
+        // expression macros (forward_err!, xraise!, vec!...): the rules apply inside their arguments too
+        let args = crate::macro_args(m);
+        let leaked: &'static [Expr] = Box::leak(args.into_boxed_slice());
+        for e in leaked {
+            if !matches!(e, Expr::Verbatim(_)) {
+                self.visit_expr(e);
+            }
+        }
+    }
+
     fn visit_stmt_macro(&mut self, m: &'ast StmtMacro) {
         let name = m.mac.path.segments.last().map(|s| s.ident.to_string()).unwrap_or_default();
         if name == "assert" {
@@ -479,7 +496,9 @@ impl<'a, 'ast> Visit<'ast> for Rewriter<'a> {
             let r = self.r(m.span());
             self.edits.delete(r, "R-drop:macro");
             self.note("R-drop:macro", m.span());
+            return;
         }
+        self.visit_macro(&m.mac);
     }
 
     fn visit_local(&mut self, l: &'ast Local) {
@@ -716,6 +735,28 @@ impl<'a, 'ast> Visit<'ast> for Rewriter<'a> {
                     name
                 ));
             }
+        }
+        if name == "get_unchecked" && m.args.len() == 1 {
+            // R-unchecked: `x.get_unchecked(i)` -> `&x[i]`; the safety precondition of the unchecked
+            // access (i in bounds) becomes Verus' index obligation
+            self.visit_expr(&m.receiver);
+            self.visit_expr(&m.args[0]);
+            let rr = self.r(m.receiver.span());
+            let ar = self.r(m.args[0].span());
+            let whole = self.r(m.span());
+            self.edits.replace(
+                whole,
+                vec![
+                    Piece::Lit("&".into()),
+                    Piece::Src(rr.0, rr.1),
+                    Piece::Lit("[".into()),
+                    Piece::Src(ar.0, ar.1),
+                    Piece::Lit("]".into()),
+                ],
+                "R-unchecked",
+            );
+            self.note("R-unchecked", m.span());
+            return;
         }
         if self.cfg.rmatch && name == "cloned" && m.args.is_empty() {
             // R-optmin: `a.iter().chain(b.iter()).min().cloned()` on two Options == the smaller of
